@@ -5,7 +5,7 @@ class C40(Prop):
     pid = "C40"
     check_mod = "C40"
     drivers = [dict(pkg="internal/core", test="TestVerifC40", timeout=600)]
-    n_quick = 40
+    n_quick = 32
     n_thorough = 480
     shard = 60
     search_factor = 2
